@@ -10,13 +10,21 @@ RULE = ("failure scripts 'attempt k of design d raises X': every single-design s
         "failures, all two-design combinations (thorough), random multi-design scripts, serial and threaded batches (script keyed by "
         "design); each execution is compared with an executable model of the retry loop. non-trivial = script with at least one "
         "failure; distinct by (script, batch shape, workers)")
-ASSUMPTIONS = ["subclasses of RuntimeError/TimeoutError are not generated", "a freshly sampled replacement differs from the failed "
+ASSUMPTIONS = ["user-defined subclasses of RuntimeError/TimeoutError count as the transient kinds (Python exception semantics); built-in subclasses such as RecursionError are not generated", "a freshly sampled replacement differs from the failed "
                "vector (probability-0 coincidences ignored)"]
 SHARDS = {"quick": 1, "thorough": 16}
 WATCHDOG = {"quick": 900, "thorough": 3000}
 
-TRANSIENT = {"T": TimeoutError, "R": RuntimeError}
-OTHER = {"V": ValueError, "K": KeyError, "Z": ZeroDivisionError, "O": OSError}
+class SolverDiverged(RuntimeError):
+    """what user code typically raises: a subclass of the transient type"""
+
+
+class SolverTooSlow(TimeoutError):
+    pass
+
+
+TRANSIENT = {"T": TimeoutError, "R": RuntimeError, "r": SolverDiverged, "t": SolverTooSlow}
+OTHER = {"V": ValueError, "K": KeyError, "Z": ZeroDivisionError, "O": OSError, "C": ConnectionError}
 
 
 def single_scripts():
@@ -30,6 +38,10 @@ def single_scripts():
 def cases(ctx):
     for s in single_scripts():
         yield "script", {"scripts": [s], "procs": 1, "seed": ctx.subseed("s", s)}
+    for k in range(1, 6):
+        for sub in ("r", "t"):
+            yield "script", {"scripts": [sub * k], "procs": 1, "seed": ctx.subseed("sub", k, sub)}
+            yield "script", {"scripts": [("T" + sub) * 3][:1], "procs": 1, "seed": ctx.subseed("submix", k, sub)}
     for k in range(0, 5):
         for o in OTHER:
             for lead in ("T", "R"):
@@ -43,11 +55,11 @@ def cases(ctx):
             if c < 0.5:
                 scripts.append("")
             elif c < 0.9:
-                scripts.append("".join(rr.choice("TR") for _ in range(rr.randint(1, 4))))
+                scripts.append("".join(rr.choice("TRTRrt") for _ in range(rr.randint(1, 4))))
             elif c < 0.95:
                 scripts.append("".join(rr.choice("TR") for _ in range(5)))
             else:
-                scripts.append("".join(rr.choice("TR") for _ in range(rr.randint(0, 4))) + rr.choice("VKZO"))
+                scripts.append("".join(rr.choice("TRrt") for _ in range(rr.randint(0, 4))) + rr.choice("VKZOC"))
         yield "script", {"scripts": scripts, "procs": rr.choice([1, 1, 2, 3, 4]), "seed": ctx.subseed("m", i)}
     if not ctx.quick:
         ss = single_scripts()
